@@ -127,6 +127,7 @@ class G:
     self.needs_typing = set()
     self.annotated = set()
     self.uses_T = False
+    self.imports = set()
 
   # ---- small helpers
   def i(self, lo, hi):
@@ -814,6 +815,9 @@ class G:
       opts += ["try-finally", "try-else", "try-as-if-finally",
                "try-return-finally", "try-multi"]
     opts += ["nested-literal", "big-literal"]
+    if cfg.nested:
+      opts += ["enum", "namedtuple", "typeddict", "typeddict-functional",
+               "collections"]
     if cfg.match:
       opts += ["match", "match-class", "match-seq"]
     if cfg.decorators:
@@ -939,6 +943,53 @@ class G:
         body = "[%s]" % ", ".join(["1", "'a'", "(1, 2)", "None"][i % 4]
                                   for i in range(n))
       return ["%s = %s" % (v, body)]
+    if o == "enum":
+      self.imports.add("import enum")
+      e = self.fresh("E")
+      env[v] = "int"
+      members = self.draw(st.lists(st.sampled_from(
+          ["A = 1", "B = 2", "C = 'c'", "D = (1, 2)", "F = None", "G = 2.5"]),
+                                   min_size=1, max_size=4, unique=True))
+      base = self.pick(["enum.Enum", "enum.Enum", "enum.IntEnum", "enum.Flag"])
+      if base != "enum.Enum":
+        members = [m for m in members if m[-1].isdigit()] or ["A = 1"]
+      first = members[0].split(" = ")[0]
+      return (["class %s(%s):" % (e, base)] + ["  " + m for m in members] +
+              ["  def describe(self):", "    return self.name",
+               "%s = %s.%s" % (self.fresh("m"), e, first),
+               "%s = %s.%s.value" % (v, e, first)])
+    if o == "namedtuple":
+      self.needs_typing.add("NamedTuple")
+      n = self.fresh("NT")
+      env[v] = "int"
+      return ["class %s(NamedTuple):" % n, "  x: int", "  y: str = 's'",
+              "  def total(self):", "    return self.x + len(self.y)",
+              "%s = %s(1)" % (self.fresh("p"), n),
+              "%s = %s(2, 't').total()" % (v, n)]
+    if o == "typeddict":
+      self.needs_typing.add("TypedDict")
+      n = self.fresh("TD")
+      env[v] = "int"
+      tv = self.fresh("t")
+      return ["class %s(TypedDict):" % n, "  k: int", "  name: str",
+              "%s: %s = {'k': 1, 'name': 'n'}" % (tv, n),
+              "%s = %s['k']" % (v, tv)]
+    if o == "typeddict-functional":
+      self.needs_typing.add("TypedDict")
+      n = self.fresh("TF")
+      env[v] = "int"
+      keys = self.pick(["{'a': int, 'b': str}", "{'a': int, 'b-c': str}",
+                        "{'class': int}", "{'x y': float, 'z': int}"])
+      return ["%s = TypedDict('%s', %s)" % (n, n, keys), "%s = 1" % v]
+    if o == "collections":
+      self.imports.add("import collections")
+      env[v] = "int"
+      n = self.fresh("Pt")
+      return ["%s = collections.namedtuple('%s', ['x', 'y'])" % (n, n),
+              "%s = %s(1, 2)" % (self.fresh("q"), n),
+              "%s = collections.OrderedDict()" % self.fresh("od"),
+              "%s = collections.defaultdict(list)" % self.fresh("dd"),
+              "%s = %s(3, 4).x" % (v, n)]
     if o == "try-else":
       env[v] = ("union", "int", "str")
       return ["try:", "  t_ = int('3')", "except (ValueError, TypeError) as ex_:",
@@ -1057,6 +1108,7 @@ class G:
     if self.needs_typing:
       header.append("from typing import %s" % ", ".join(sorted(
           self.needs_typing)))
+    header += sorted(self.imports)
     if self.uses_T:
       header.append("T = TypeVar('T')")
     return {"header": header, "stmts": stmts, "features": sorted(self.features),
